@@ -36,6 +36,9 @@ CHECKS = {
     'C02': dict(category='exploration', technique='exhaustive enumeration of recursive templates x all weightings over a 5-value alphabet x semiring x method x tolerances/budgets against Kleene-iteration oracles (exact for Bool/Viterbi, 50-digit for Real/Log)',
                 text='Nine recursive templates (incl. a nonterminal whose sparsity pattern grows during iteration) with every weighting of up to 3 (thorough 4) entries over {0,1/4,1/2,1,2}, domain sizes 1-2, are solved by the real sum_product under every semiring, method and three tolerances, plus starved iteration budgets; the result is compared with the least fixed point computed by Kleene iteration on the IR within an explicit a-priori error bound, method=linear must raise ValueError exactly on non-linear grammars, and an unconverged result without a warning is a violation.',
                 note='Grammars whose Real/Log least fixed point the 50-digit Kleene iteration cannot classify (critical, rho ~ 1) are excluded and counted, except the closed-form critical case x = a x^2 + b. Known finding K02 (Viterbi newton, tight cycle + rounding).', design='3/C02'),
+    'C03': dict(category='exploration', technique='exhaustive enumeration of grammars (rule shapes x factor sharing x zero deviations, a multi-nonterminal family, ten recursive templates x weightings) x {Real,Log} x methods x all one-hot cotangents against exact forward-mode derivatives of the definition',
+                text='For every grammar of the bounded families, every weight requiring grad and every one-hot / all-ones cotangent on the start tensor, the gradient produced by back-propagating through the real sum_product is compared entry by entry with the exact derivative of the definition (rational forward-mode on the IR; 40-digit Kleene iteration with dual numbers for recursive grammars; w dZ/dw / Z in the Log semiring), including shared factors, unreachable factors, dead rules, duplicated external nodes and a diagonal-patterned factor.',
+                note='Default Jacobian path only (j_precompute is compared relationally in C11). Known finding K03 (fixed-point stops at an all-zero iterate). Bounds and excluded counts in evidence.', design='3/C03'),
 }
 
 ALL = ['C%02d' % i for i in range(1, 21)]
